@@ -173,6 +173,25 @@ def gen_description(rng, force=None, hostile=True, child_types=None):
     while budget[0] > 0 and ntop < 3:
         variants.append(gen_variant(rng, None, used, 1, budget, hostile=hostile))
         ntop += 1
+    if force == "many-variants" or (force is None and rng.random() < 0.06):
+        stem = rng.choice(["V", "", "Layer", "v0"])
+        ids = ["%s%d" % (stem, k) for k in range(1, rng.randint(10, 14))]
+        rng.shuffle(ids)
+        host = variants[0] if rng.random() < 0.5 else None
+        taken = set(x["uid"] for x in iter_nodes(variants))
+        for vid in ids:
+            uid = vid if host is None else "%s-%s" % (host["uid"], vid)
+            if uid in taken or (host is None and vid in used) or (host is not None and vid in [c["id"] for c in host["children"]]):
+                continue
+            taken.add(uid)
+            paths = dict((k, tpath(rng, hostile)) for k in domains.TREE_PATH_KINDS if rng.random() < 0.4)
+            node = {"id": vid, "uid": uid, "name": tvalue(rng, hostile), "type": "variant" if host is None else rng.choice(domains.TREE_VARIANT_TYPES),
+                    "paths": paths, "children": []}
+            if host is None:
+                used.add(vid)
+                variants.append(node)
+            else:
+                host["children"].append(node)
     if force == "depth-3":
         top = variants[0]
         if not top["children"]:
@@ -244,11 +263,11 @@ def gen_description(rng, force=None, hostile=True, child_types=None):
             stage2 = {"mainimage": None, "instimage": "images/only-inst.img"}
     media = None
     if rng.random() < 0.3 or force == "media":
-        total = rng.choice([1, 2, 3, 7])
-        media = {"discnum": rng.randint(1, total), "totaldiscs": total}
+        total = rng.choice([1, 2, 3, 7, 10, 12, 100, 2 ** 31])
+        media = {"discnum": rng.choice([1, total, rng.randint(1, total)]), "totaldiscs": total}
     checksums = {}
     if rng.random() < 0.5 or force in ("checksums", "mixed-case-options"):
-        for _ in range(rng.randint(1, 5)):
+        for _ in range(rng.choice([1, 2, 3, 5, 12, 20])):
             p = option_name(rng, "checksum")
             if representable_option(p) and posixpath.normpath(p) == p:
                 t = rng.choice(["sha256", "md5", "sha1", "sha512", "sha384"])
@@ -276,6 +295,12 @@ def classes_of(D):
     out.add("src-tree" if D["tree"]["arch"] == "src" else "binary-tree")
     out.add("layered" if D["release"]["is_layered"] else "not-layered")
     nodes = list(iter_nodes(D["variants"]))
+    if len(D["variants"]) >= 10 or any(len(n["children"]) >= 10 for n in nodes):
+        out.add("many-variants")
+    if D.get("media") and D["media"]["totaldiscs"] >= 10:
+        out.add("media-ten-or-more")
+    if len(D.get("checksums") or {}) >= 10:
+        out.add("checksums-ten-or-more")
     if len(D["variants"]) > 1:
         out.add("several-top-variants")
     else:
@@ -583,9 +608,9 @@ def gen_discinfo(rng, force=None):
     if rng.random() < 0.4 or force == "disc-all":
         discs = ["ALL"]
     else:
-        discs = [rng.randint(1, 9) for _ in range(rng.randint(1, 6))]
+        discs = [rng.choice([rng.randint(1, 9), rng.randint(10, 130), 2 ** 31]) for _ in range(rng.choice([1, 2, 4, 6, 12]))]
     if force == "disc-list":
-        discs = sorted(rng.sample(range(1, 20), rng.randint(1, 6)))
+        discs = sorted(rng.sample(range(1, 120), rng.choice([1, 3, 6, 11, 15])))
     if force == "disc-single":
         discs = [rng.randint(1, 3)]
     return {"timestamp": ts, "description": desc, "arch": arch, "disc_numbers": discs}
